@@ -50,14 +50,15 @@ Definition dgran (p : bparams) : Z := match p_dgran p with Some g => g | None =>
 Definition latoff (p : bparams) : Z := match p_latoff p with Some g => g | None => 0 end.
 Definition lonoff (p : bparams) : Z := match p_lonoff p with Some g => g | None => 0 end.
 
-Record dcols := mkDC {
-  c_ids : iter; c_versions : iter; c_timestamps : iter; c_changesets : iter; c_uids : iter;
-  c_usids : iter; c_visibles : iter; c_lats : iter; c_lons : iter; c_keyvals : iter }.
+Record icols := mkIC {
+  c_versions : iter; c_timestamps : iter; c_changesets : iter; c_uids : iter; c_usids : iter; c_visibles : iter }.
+Record dcols := mkDC { c_ids : iter; c_info : icols; c_lats : iter; c_lons : iter; c_keyvals : iter }.
 Record wcols := mkWC {
   c_keys : iter; c_vals : iter; c_nodes : iter; c_wlats : iter; c_wlons : iter;
   c_roles : iter; c_memids : iter; c_types : iter }.
 Record dstate := mkD { d_p : bparams; d_dc : dcols; d_wc : wcols }.
-Definition dc0 := mkDC None None None None None None None None None None.
+Definition ic0 := mkIC None None None None None None.
+Definition dc0 := mkDC None ic0 None None None.
 Definition wc0 := mkWC None None None None None None None None.
 Definition dstate0 := mkD p0 dc0 wc0.
 
@@ -272,30 +273,30 @@ Definition scan_relation (p : bparams) (wc : wcols) (m : msg) (r : relation) : r
 Record ifound := mkIF { fi_ver : bool; fi_ts : bool; fi_cs : bool; fi_uid : bool; fi_usid : bool; fi_vis : bool }.
 Definition if0 := mkIF false false false false false false.
 
-Definition dinfo_step (s : dcols * ifound) (f : Z * wval) : result (dcols * ifound) :=
+Definition dinfo_step (s : icols * ifound) (f : Z * wval) : result (icols * ifound) :=
   let n := fst f in let v := snd f in
-  let dc := fst s in let fi := snd s in
+  let ic := fst s in let fi := snd s in
   if n =? 1 then l <- as_packed v ;;;
-    Ok (mkDC (c_ids dc) (Some l) (c_timestamps dc) (c_changesets dc) (c_uids dc) (c_usids dc) (c_visibles dc) (c_lats dc) (c_lons dc) (c_keyvals dc),
+    Ok (mkIC (Some l) (c_timestamps ic) (c_changesets ic) (c_uids ic) (c_usids ic) (c_visibles ic),
         mkIF true (fi_ts fi) (fi_cs fi) (fi_uid fi) (fi_usid fi) (fi_vis fi))
   else if n =? 2 then l <- as_packed v ;;;
-    Ok (mkDC (c_ids dc) (c_versions dc) (Some l) (c_changesets dc) (c_uids dc) (c_usids dc) (c_visibles dc) (c_lats dc) (c_lons dc) (c_keyvals dc),
+    Ok (mkIC (c_versions ic) (Some l) (c_changesets ic) (c_uids ic) (c_usids ic) (c_visibles ic),
         mkIF (fi_ver fi) true (fi_cs fi) (fi_uid fi) (fi_usid fi) (fi_vis fi))
   else if n =? 3 then l <- as_packed v ;;;
-    Ok (mkDC (c_ids dc) (c_versions dc) (c_timestamps dc) (Some l) (c_uids dc) (c_usids dc) (c_visibles dc) (c_lats dc) (c_lons dc) (c_keyvals dc),
+    Ok (mkIC (c_versions ic) (c_timestamps ic) (Some l) (c_uids ic) (c_usids ic) (c_visibles ic),
         mkIF (fi_ver fi) (fi_ts fi) true (fi_uid fi) (fi_usid fi) (fi_vis fi))
   else if n =? 4 then l <- as_packed v ;;;
-    Ok (mkDC (c_ids dc) (c_versions dc) (c_timestamps dc) (c_changesets dc) (Some l) (c_usids dc) (c_visibles dc) (c_lats dc) (c_lons dc) (c_keyvals dc),
+    Ok (mkIC (c_versions ic) (c_timestamps ic) (c_changesets ic) (Some l) (c_usids ic) (c_visibles ic),
         mkIF (fi_ver fi) (fi_ts fi) (fi_cs fi) true (fi_usid fi) (fi_vis fi))
   else if n =? 5 then l <- as_packed v ;;;
-    Ok (mkDC (c_ids dc) (c_versions dc) (c_timestamps dc) (c_changesets dc) (c_uids dc) (Some l) (c_visibles dc) (c_lats dc) (c_lons dc) (c_keyvals dc),
+    Ok (mkIC (c_versions ic) (c_timestamps ic) (c_changesets ic) (c_uids ic) (Some l) (c_visibles ic),
         mkIF (fi_ver fi) (fi_ts fi) (fi_cs fi) (fi_uid fi) true (fi_vis fi))
   else if n =? 6 then l <- as_packed v ;;;
-    Ok (mkDC (c_ids dc) (c_versions dc) (c_timestamps dc) (c_changesets dc) (c_uids dc) (c_usids dc) (Some l) (c_lats dc) (c_lons dc) (c_keyvals dc),
+    Ok (mkIC (c_versions ic) (c_timestamps ic) (c_changesets ic) (c_uids ic) (c_usids ic) (Some l),
         mkIF (fi_ver fi) (fi_ts fi) (fi_cs fi) (fi_uid fi) (fi_usid fi) true)
   else Ok s.
 
-Fixpoint dinfo_loop (m : msg) (s : dcols * ifound) : result (dcols * ifound) :=
+Fixpoint dinfo_loop (m : msg) (s : icols * ifound) : result (icols * ifound) :=
   match m with
   | [] => Ok s
   | f :: r => s' <- dinfo_step s f ;;; dinfo_loop r s'
@@ -304,10 +305,10 @@ Fixpoint dinfo_loop (m : msg) (s : dcols * ifound) : result (dcols * ifound) :=
 Definition keep (b : bool) (c : iter) : iter := if b then c else None.
 
 (* if !foundX { dec.X = nil } for the six DenseInfo columns *)
-Definition nil_info (fi : ifound) (dc : dcols) : dcols :=
-  mkDC (c_ids dc) (keep (fi_ver fi) (c_versions dc)) (keep (fi_ts fi) (c_timestamps dc))
-       (keep (fi_cs fi) (c_changesets dc)) (keep (fi_uid fi) (c_uids dc)) (keep (fi_usid fi) (c_usids dc))
-       (keep (fi_vis fi) (c_visibles dc)) (c_lats dc) (c_lons dc) (c_keyvals dc).
+Definition nil_info (fi : ifound) (ic : icols) : icols :=
+  mkIC (keep (fi_ver fi) (c_versions ic)) (keep (fi_ts fi) (c_timestamps ic))
+       (keep (fi_cs fi) (c_changesets ic)) (keep (fi_uid fi) (c_uids ic)) (keep (fi_usid fi) (c_usids ic))
+       (keep (fi_vis fi) (c_visibles ic)).
 
 Record dfound := mkDF { fd_ids : bool; fd_info : bool; fd_lats : bool; fd_lons : bool; fd_kv : bool }.
 Definition df0 := mkDF false false false false false.
@@ -316,19 +317,20 @@ Definition dense_step (s : dcols * dfound) (f : Z * wval) : result (dcols * dfou
   let n := fst f in let v := snd f in
   let dc := fst s in let fd := snd s in
   if n =? 1 then l <- as_packed v ;;;
-    Ok (mkDC (Some l) (c_versions dc) (c_timestamps dc) (c_changesets dc) (c_uids dc) (c_usids dc) (c_visibles dc) (c_lats dc) (c_lons dc) (c_keyvals dc),
+    Ok (mkDC (Some l) (c_info dc) (c_lats dc) (c_lons dc) (c_keyvals dc),
         mkDF true (fd_info fd) (fd_lats fd) (fd_lons fd) (fd_kv fd))
   else if n =? 5 then d <- as_msg v ;;;
-    s' <- dinfo_loop d (dc, if0) ;;;
-    Ok (nil_info (snd s') (fst s'), mkDF (fd_ids fd) true (fd_lats fd) (fd_lons fd) (fd_kv fd))
+    s' <- dinfo_loop d (c_info dc, if0) ;;;
+    Ok (mkDC (c_ids dc) (nil_info (snd s') (fst s')) (c_lats dc) (c_lons dc) (c_keyvals dc),
+        mkDF (fd_ids fd) true (fd_lats fd) (fd_lons fd) (fd_kv fd))
   else if n =? 8 then l <- as_packed v ;;;
-    Ok (mkDC (c_ids dc) (c_versions dc) (c_timestamps dc) (c_changesets dc) (c_uids dc) (c_usids dc) (c_visibles dc) (Some l) (c_lons dc) (c_keyvals dc),
+    Ok (mkDC (c_ids dc) (c_info dc) (Some l) (c_lons dc) (c_keyvals dc),
         mkDF (fd_ids fd) (fd_info fd) true (fd_lons fd) (fd_kv fd))
   else if n =? 9 then l <- as_packed v ;;;
-    Ok (mkDC (c_ids dc) (c_versions dc) (c_timestamps dc) (c_changesets dc) (c_uids dc) (c_usids dc) (c_visibles dc) (c_lats dc) (Some l) (c_keyvals dc),
+    Ok (mkDC (c_ids dc) (c_info dc) (c_lats dc) (Some l) (c_keyvals dc),
         mkDF (fd_ids fd) (fd_info fd) (fd_lats fd) true (fd_kv fd))
   else if n =? 10 then l <- as_packed v ;;;
-    Ok (mkDC (c_ids dc) (c_versions dc) (c_timestamps dc) (c_changesets dc) (c_uids dc) (c_usids dc) (c_visibles dc) (c_lats dc) (c_lons dc) (Some l),
+    Ok (mkDC (c_ids dc) (c_info dc) (c_lats dc) (c_lons dc) (Some l),
         mkDF (fd_ids fd) (fd_info fd) (fd_lats fd) (fd_lons fd) true)
   else Ok s.
 
@@ -345,9 +347,8 @@ Definition dense_fixup (s : dcols * dfound) : result dcols :=
   else if negb (fd_lats fd) then Err E_NO_LATS
   else if negb (fd_lons fd) then Err E_NO_LONS
   else
-    let dc1 := mkDC (c_ids dc) (c_versions dc) (c_timestamps dc) (c_changesets dc) (c_uids dc) (c_usids dc)
-                    (c_visibles dc) (c_lats dc) (c_lons dc) (keep (fd_kv fd) (c_keyvals dc)) in
-    Ok (if fd_info fd then dc1 else nil_info if0 dc1).
+    Ok (mkDC (c_ids dc) (if fd_info fd then c_info dc else ic0) (c_lats dc) (c_lons dc)
+             (keep (fd_kv fd) (c_keyvals dc))).
 
 (* ---------- extractDenseNodes ---------- *)
 (* for { k := keyvals.Int32(); if k == 0 break; v := keyvals.Int32(); n.Tags = append(n.Tags, {st[k], st[v]}) } *)
@@ -373,24 +374,26 @@ Record xst := mkX {
 
 Definition opt_or {A} (o : option A) (d : A) : A := match o with Some a => a | None => d end.
 
-Definition extract_body (c : cfg) (p : bparams) (v1 : Z) (x : xst) : result xst :=
-  let dc := x_dc x in let n := x_n x in let i := n_info n in
+(* one iteration up to (not including) the filter call: the node as filled in, and the
+   loop-carried variables *)
+Definition extract_pre (p : bparams) (v1 : Z) (x : xst) : result (node * xst) :=
+  let dc := x_dc x in let ic := c_info dc in let n := x_n x in let i := n_info n in
   let id := wrap64 (a_id x + sint64 v1) in
-  ' (ov, cver) <- col_next (c_versions dc) ;;;
+  ' (ov, cver) <- col_next (c_versions ic) ;;;
   let ver := match ov with Some v2 => int32 v2 | None => i_version i end in
-  ' (ot, cts) <- col_next (c_timestamps dc) ;;;
+  ' (ot, cts) <- col_next (c_timestamps ic) ;;;
   let ats := match ot with Some v3 => wrap64 (a_ts x + sint64 v3) | None => a_ts x end in
   let ts := match ot with Some _ => Some (ts_ns ats (dgran p)) | None => i_ts i end in
-  ' (oc, ccs) <- col_next (c_changesets dc) ;;;
+  ' (oc, ccs) <- col_next (c_changesets ic) ;;;
   let acs := match oc with Some v4 => wrap64 (a_cs x + sint64 v4) | None => a_cs x end in
   let cs := match oc with Some _ => acs | None => i_cs i end in
-  ' (ou, cuid) <- col_next (c_uids dc) ;;;
+  ' (ou, cuid) <- col_next (c_uids ic) ;;;
   let auid := match ou with Some v5 => wrap32 (a_uid x + sint32 v5) | None => a_uid x end in
   let uid := match ou with Some _ => auid | None => i_uid i end in
-  ' (os, cusid) <- col_next (c_usids dc) ;;;
+  ' (os, cusid) <- col_next (c_usids ic) ;;;
   let ausid := match os with Some v6 => wrap32 (a_usid x + sint32 v6) | None => a_usid x end in
   user <- match os with Some _ => idx (p_st p) ausid | None => Ok (i_user i) end ;;;
-  ' (ob, cvis) <- col_next (c_visibles dc) ;;;
+  ' (ob, cvis) <- col_next (c_visibles ic) ;;;
   let vis := match ob with Some v7 => vbool v7 | None => i_visible i end in
   match c_lats dc, c_lons dc with
   | Some lats, Some lons =>
@@ -404,13 +407,21 @@ Definition extract_body (c : cfg) (p : bparams) (v1 : Z) (x : xst) : result xst 
                        end ;;;
       let n' := mkNode id (coord (latoff p) (gran p) alat) (coord (lonoff p) (gran p) alon)
                        (mkInfo ver ts cs uid user vis) tags in
-      let dc' := mkDC (c_ids dc) cver cts ccs cuid cusid cvis (Some lats') (Some lons') ckv in
-      if f_node c n'
-      then Ok (mkX dc' id alat alon ats acs auid ausid node0 (x_q x ++ [ONode n']))
-      else Ok (mkX dc' id alat alon ats acs auid ausid
-                   (mkNode 0 0 0 info0 (firstn 0 (n_tags n'))) (x_q x))   (* *n = Node{Visible: true, Tags: n.Tags[:0]} *)
+      let dc' := mkDC (c_ids dc) (mkIC cver cts ccs cuid cusid cvis) (Some lats') (Some lons') ckv in
+      Ok (n', mkX dc' id alat alon ats acs auid ausid n' (x_q x))
   | _, _ => Panic
   end.
+
+(* if FilterNode == nil || FilterNode(n) { q = append(q, n); n = &Node{Visible: true} }
+   else { *n = Node{Visible: true, Tags: n.Tags[:0]} } *)
+Definition extract_post (c : cfg) (n' : node) (x : xst) : xst :=
+  if f_node c n'
+  then mkX (x_dc x) (a_id x) (a_lat x) (a_lon x) (a_ts x) (a_cs x) (a_uid x) (a_usid x) node0 (x_q x ++ [ONode n'])
+  else mkX (x_dc x) (a_id x) (a_lat x) (a_lon x) (a_ts x) (a_cs x) (a_uid x) (a_usid x)
+           (mkNode 0 0 0 info0 (firstn 0 (n_tags n'))) (x_q x).
+
+Definition extract_body (c : cfg) (p : bparams) (v1 : Z) (x : xst) : result xst :=
+  ' (n', x') <- extract_pre p v1 x ;;; Ok (extract_post c n' x').
 
 Fixpoint extract_loop (c : cfg) (p : bparams) (ids : list Z) (x : xst) : result xst :=
   match ids with
@@ -424,8 +435,7 @@ Definition extract_dense (c : cfg) (p : bparams) (dc : dcols) (q : list obj) : r
   | Some ids =>
       x <- extract_loop c p ids (mkX dc 0 0 0 0 0 0 0 node0 q) ;;;
       let dc' := x_dc x in
-      Ok (mkDC (Some []) (c_versions dc') (c_timestamps dc') (c_changesets dc') (c_uids dc') (c_usids dc')
-               (c_visibles dc') (c_lats dc') (c_lons dc') (c_keyvals dc'), x_q x)
+      Ok (mkDC (Some []) (c_info dc') (c_lats dc') (c_lons dc') (c_keyvals dc'), x_q x)
   end.
 
 Definition scan_dense (c : cfg) (p : bparams) (dc : dcols) (m : msg) (q : list obj) : result (dcols * list obj) :=
